@@ -1424,6 +1424,6 @@ func main() {
 		"byte-string API (Multiply / BaseMultiply / BaseMultiplyAdd): a result equal to the point at infinity must be reported by the boolean result (the API's only carrier of the Infinity flag) with the output buffer untouched — true of the code since /repo fix 6fd2a4a3 (the former known findings api-*-identity; a regression is a VIOLATION under the same keys); BaseMultiply / BaseMultiplyAdd read the low 256 bits of a longer scalar (model-tie only above 2^256), big.Int.ModInverse inside InvVar is modelled by the reference Fermat inverse",
 		"Go's math/bits.Mul64/Add64 and uint64 wrap-around are rendered by the translator as the Nat expressions listed in go/cmd/gen_c08/xlate.go",
 	}
-	r.Finish("every case is one oracle request line: field ops on (a) named edge limb vectors 0,1,p-1,p,p+1,2p-1,2p,2^256-1, all-ones and per-magnitude maxima, (b) per-limb edge/random mixes within magnitude m (1..32), (c) raw 64-bit limbs (translator validation beyond the contract), (d) chains of add/negate/mul_int/normalize/mul/sqr fed with their own outputs up to the magnitude limits; group ops on curve points with random Z and denormalised limbs in the relations inf+inf, inf+P, P+inf, P+P, P+(-P), P+Q; scalars 0,1,n-1,n,n+1,2^128 boundaries, lambda-split rounding edges, runs of ones, 2^256-1, random, and the NEGATIVES of all of these for split_exp and for na of ECmult (single calls, wide operands, histories; big.Int.Div vs Quo differ exactly there); every entry of pre_g/pre_g_128/prec/fin; (e) group operands over the FULL magnitude contract of the Go functions (wide.go): coordinates standing for value + k·p with k up to what the magnitude admits (X,Y,Z ≤ 8 = what Mul/Sqr accept; Y of XYZ.Neg/XY.Neg up to 32 = Normalize's contract), the excess spread evenly (k·p_i per limb) or unevenly (each limb anywhere in the interval that keeps all five within the bound), every magnitude 1..8 once per operation with the largest k, through negj/negxy/dbl/add3/addxy/mullam/setxyz/isvalid and ecmult with scalars small, 2^k−1, 2^k+2^j−1, small·λ, n−small, edges, random (histogram `ecmult/wide:digit-1-selects-pre_a_1[0]` counts the runs whose λ-split wNAF negates the caller's own un-normalised operand); (f) directed (directed.go): operands found at run time by a search with the real Field code for which a raw Mul/Sqr output that the group code compares or takes the parity of is NOT canonical (top limb ≥ 2^48) — u1/u2/s1/s2 of XYZ.Add and XYZ.AddXY in the relations P+P and P+(-P) (also through ECmult 1·A+k·G and BaseMultiplyAdd(k·G,k)), the Sqrt output of XY.SetXO and its callers/twin DecompressPoint, ParsePubkey(02/03), ParseXOnlyPubkey — plus fixed witnesses of each; histogram kinds `addxy:dbl-noncanon-s2`, `setxo:noncanon-sqrt`, … count them. (g) direct ties (direct.go) of the helpers below ECmult/ECmultGen through the verif-tagged exports: XYZ.precomp (fixed points incl. ∞, every magnitude 1..8, w = 2..6, 8 in thorough; every entry i judged as (2i+1)·A with checkPoint), Number.split (non-negative numbers around every word / partial-word boundary and around their own bit length, bits 0..512, 128 = ECmult's own call; judged n = lo + hi·2^bits, receiver unchanged), Number.rsh_x (both signs, widths 4 / WINDOW_A / WINDOW_G and 1..62, the real halves of the λ-split; judged against Euclidean division by 2^bits); (h) the byte-string API on every ecmult / ecmultgen case under recover, results equal to ∞ judged too (histogram `api/*-identity`); (i) api.go: BaseMultiply / BaseMultiplyAdd / Multiply / ParsePubkey on BYTE STRINGS tied to Model.GroupApi (ops apibm / apibma / apimul / parsekey) — scalars of 0..40 bytes (empty, zeros of several lengths, 1, n−2..n+1, 2n, 3n, 2^256, 2^256+n, leading zero bytes, multiples of n, random), keys 02/03/04/06/07 of random points and of −(k·G) (sum = ∞), bad keys (wrong tag / length, x ≥ p, y ≥ p, off-curve, wrong hybrid parity, mutated), both buffer lengths; judged: ∞ ⇒ false and buffer untouched, finite ⇒ SEC1 bytes, unparsable ⇒ false. (j) history.go: HISTORIES of calls on one file of OBJECTS (oracle op hist = Model.GroupHist.run): 2..5 Jacobian and 1..3 affine registers holding related points (P, P again, −P, 2P, P+Q, G, ∞) with coordinates anywhere in the contract; idioms (compute – publish with SetXYZ – go on computing with the same object – publish again; publish twice; running sum published every round; ladder on two registers; precomp-style loop with re-used temporaries) and random histories of 3..24 calls dbl/add/addxy/neg/negxy/setxyz/setxy/gen/lam/mult with freely chosen operand and result registers; the real calls are made on the SAME objects from first to last and after EVERY call EVERY register is judged against the math/big group law (group-history:<op> result register, group-operand:<op> any other register); single calls judge their operands the same way (operandKept) and every setxyz case also runs setxyzarg (the argument afterwards, converted again, added to its own affine image). (k) concurrent.go: several callers at once with nothing shared — 13 scenarios of 2/4/8/12/16 goroutines, each with its own 10 jobs (InvVar / Inv / Mul / Sqrt on field elements, SetXYZ+GetPublicKey, Add, AddXY, Double, XYZ.Neg, XY.Neg+IsValid, SetXO, ParseXOnlyPubkey, ECmultGen, ECmult, BaseMultiply, BaseMultiplyAdd, Multiply, ParsePubkey, DecompressPoint, secp.Verify on ECDSA signatures made by math/big; families inv/api/group/mixed/entry) run for many rounds after a common start signal, every result compared with the math/big reference for the caller's own arguments (concurrent-<op>), plus the step-level model of InvVar under a random interleaving (invsched). distinct = distinct request lines; a case counts as non-trivial when it reaches the real code",
+	r.Finish("every case is one oracle request line: field ops on (a) named edge limb vectors 0,1,p-1,p,p+1,2p-1,2p,2^256-1, all-ones and per-magnitude maxima, (b) per-limb edge/random mixes within magnitude m (1..32), (c) raw 64-bit limbs (translator validation beyond the contract), (d) chains of add/negate/mul_int/normalize/mul/sqr fed with their own outputs up to the magnitude limits; group ops on curve points with random Z and denormalised limbs in the relations inf+inf, inf+P, P+inf, P+P, P+(-P), P+Q; scalars 0,1,n-1,n,n+1,2^128 boundaries, lambda-split rounding edges, runs of ones, 2^256-1, random, and the NEGATIVES of all of these for split_exp and for na of ECmult (single calls, wide operands, histories; big.Int.Div vs Quo differ exactly there); every entry of pre_g/pre_g_128/prec/fin; (e) group operands over the FULL magnitude contract of the Go functions (wide.go): coordinates standing for value + k·p with k up to what the magnitude admits (X,Y,Z ≤ 8 = what Mul/Sqr accept; Y of XYZ.Neg/XY.Neg up to 32 = Normalize's contract), the excess spread evenly (k·p_i per limb) or unevenly (each limb anywhere in the interval that keeps all five within the bound), every magnitude 1..8 once per operation with the largest k, through negj/negxy/dbl/add3/addxy/mullam/setxyz/isvalid and ecmult with scalars small, 2^k−1, 2^k+2^j−1, small·λ, n−small, edges, random (histogram `ecmult/wide:digit-1-selects-pre_a_1[0]` counts the runs whose λ-split wNAF negates the caller's own un-normalised operand); (f) directed (directed.go): operands found at run time by a search with the real Field code for which a raw Mul/Sqr output that the group code compares or takes the parity of is NOT canonical (top limb ≥ 2^48) — u1/u2/s1/s2 of XYZ.Add and XYZ.AddXY in the relations P+P and P+(-P) (also through ECmult 1·A+k·G and BaseMultiplyAdd(k·G,k)), the Sqrt output of XY.SetXO and its callers/twin DecompressPoint, ParsePubkey(02/03), ParseXOnlyPubkey — plus fixed witnesses of each; histogram kinds `addxy:dbl-noncanon-s2`, `setxo:noncanon-sqrt`, … count them. (g) direct ties (direct.go) of the helpers below ECmult/ECmultGen through the verif-tagged exports: XYZ.precomp (fixed points incl. ∞, every magnitude 1..8, w = 2..6, 8 in thorough; every entry i judged as (2i+1)·A with checkPoint), Number.split (non-negative numbers around every word / partial-word boundary and around their own bit length, bits 0..512, 128 = ECmult's own call; judged n = lo + hi·2^bits, receiver unchanged), Number.rsh_x (both signs, widths 4 / WINDOW_A / WINDOW_G and 1..62, the real halves of the λ-split; judged against Euclidean division by 2^bits); (h) the byte-string API on every ecmult / ecmultgen case under recover, results equal to ∞ judged too (histogram `api/*-identity`); (i) api.go: BaseMultiply / BaseMultiplyAdd / Multiply / ParsePubkey on BYTE STRINGS tied to Model.GroupApi (ops apibm / apibma / apimul / parsekey) — scalars of 0..40 bytes (empty, zeros of several lengths, 1, n−2..n+1, 2n, 3n, 2^256, 2^256+n, leading zero bytes, multiples of n, random), keys 02/03/04/06/07 of random points and of −(k·G) (sum = ∞), bad keys (wrong tag / length, x ≥ p, y ≥ p, off-curve, wrong hybrid parity, mutated), both buffer lengths; judged: ∞ ⇒ false and buffer untouched, finite ⇒ SEC1 bytes, unparsable ⇒ false. (j) history.go: HISTORIES of calls on one file of OBJECTS (oracle op hist = Model.GroupHist.run): 2..5 Jacobian and 1..3 affine registers holding related points (P, P again, −P, 2P, P+Q, G, ∞) with coordinates anywhere in the contract; idioms (compute – publish with SetXYZ – go on computing with the same object – publish again; publish twice; running sum published every round; ladder on two registers; precomp-style loop with re-used temporaries) and random histories of 3..24 calls dbl/add/addxy/neg/negxy/setxyz/setxy/gen/lam/mult with freely chosen operand and result registers; the real calls are made on the SAME objects from first to last and after EVERY call EVERY register is judged against the math/big group law (group-history:<op> result register, group-operand:<op> any other register); single calls judge their operands the same way (operandKept) and every setxyz case also runs setxyzarg (the argument afterwards, converted again, added to its own affine image). (k) concurrent.go: several callers at once with nothing shared — 13 scenarios of 2/4/8/12/16 goroutines, each with its own 10 jobs (InvVar / Inv / Mul / Sqrt on field elements, SetXYZ+GetPublicKey, Add, AddXY, Double, XYZ.Neg, XY.Neg+IsValid, SetXO, ParseXOnlyPubkey, ECmultGen, ECmult, BaseMultiply, BaseMultiplyAdd, Multiply, ParsePubkey, DecompressPoint, secp.Verify on ECDSA signatures made by math/big; families inv/api/group/mixed/entry) run for many rounds after a common start signal, every result compared with the math/big reference for the caller's own arguments (concurrent-<op>), plus the step-level model of InvVar under a random interleaving (invsched). (l) cancel.go: ECmult on RELATED operands A = c·γ/β·G (γ ∈ {1, 2^128}, β ∈ {1, λ}, c small signed) with stream values solved on discrete logarithms so that inside the interleaved wNAF loop the running sum is ∞ / equals the table entry being added / is its negative, for each of the four streams and both digit signs; every case's class confirmed by a replay of the loop on discrete logarithms (histogram `ecmult/exceptional:<stream>:<sign>:<relation>`, 24 classes). distinct = distinct request lines; a case counts as non-trivial when it reaches the real code",
 		"translator validation: generated Lean defs vs the Go functions limb-for-limb on every field case; property: value/magnitude/observable (Normalize+GetB32) of the real code's result against math/big mod p, group results against an independent affine group law, table entries against recomputed multiples of G; hand group model vs Go limb-for-limb on finite results")
 }
